@@ -10,7 +10,9 @@
 //     on one locked OS thread under `strace -e inject=<mutating syscalls>:signal=SIGKILL:when=N`;
 //     the parent then lists the cache directory and retrieves;
 //   - races: a helper process stores the same key again and again from one repository while this
-//     process retrieves it into another repository.
+//     process retrieves it into another repository;
+//   - dirty retrieves: nested outputs ("sub/n") and a Retrieve into an out directory that still holds
+//     another version of the outputs (runDirty).
 package main
 
 import (
@@ -1280,6 +1282,248 @@ func faultVariants(tree []Node) []faultVariant {
 }
 
 // ---------------------------------------------------------------------------------------------
+// dirty retrieves: outputs declared inside sub-directories of the out directory ("sub/n", "a/b/c"),
+// and a Retrieve into an out directory that still holds ANOTHER version of those outputs (build v1,
+// store K1, build v2 over it, [store K2,] retrieve K1, [retrieve K2]).
+
+type DirtyCase struct {
+	Kind     string   `json:"kind"` // dirty
+	Compress bool     `json:"compress"`
+	Outs     []string `json:"outs"`
+	V1       []Node   `json:"v1"`     // one node per output, named by the output's path
+	Extra1   []Node   `json:"extra1"` // files of the v1 build that are not outputs (never stored)
+	V2       []Node   `json:"v2"`     // what the out directory holds when K1 is retrieved
+	StoreK2  bool     `json:"store_k2"`
+	Label    string   `json:"label"`
+	Step     string   `json:"step"` // which retrieve failed: K1-over-v2, K2-over-v1
+	Hit      bool     `json:"hit"`
+	Before   []Ent    `json:"before,omitempty"`
+	After    []Ent    `json:"after,omitempty"`
+	Want     []Ent    `json:"want,omitempty"`
+	BadOut   string   `json:"bad_out,omitempty"`
+}
+
+func splitOuts(outs []string) [][]string {
+	ps := make([][]string, len(outs))
+	for i, o := range outs {
+		ps[i] = strings.Split(o, "/")
+	}
+	return ps
+}
+
+func under(p []string, e Ent) bool {
+	if len(e.Path) < len(p) {
+		return false
+	}
+	for i := range p {
+		if e.Path[i] != p[i] {
+			return false
+		}
+	}
+	return true
+}
+
+func subtreeOf(es []Ent, p []string) []Ent {
+	out := []Ent{}
+	for _, e := range es {
+		if under(p, e) {
+			out = append(out, e)
+		}
+	}
+	return out
+}
+
+func nodeNamed(ns []Node, name string) (Node, bool) {
+	for _, n := range ns {
+		if n.Name == name {
+			return n, true
+		}
+	}
+	return Node{}, false
+}
+
+// retrieveOver retrieves WITHOUT cleaning the out directory first.
+func retrieveOver(repo, cdir string, compress bool, key []byte, outs []string) (bool, []Ent, []Ent) {
+	gmu.Lock()
+	defer gmu.Unlock()
+	enter(repo)
+	must(os.MkdirAll(outDir(repo), 0o775))
+	before, after := []Ent{}, []Ent{}
+	listTree(outDir(repo), nil, &before)
+	hit := newCache(cdir, compress).Retrieve(newTarget(), key, outs)
+	listTree(outDir(repo), nil, &after)
+	return hit, before, after
+}
+
+func buildHere(repo string, tree []Node) {
+	gmu.Lock()
+	defer gmu.Unlock()
+	must(os.RemoveAll(filepath.Join(repo, "plz-out")))
+	enter(repo)
+	materialise(outDir(repo), tree)
+}
+
+func coqPathList(ps [][]string) string { return coqPaths(ps) }
+
+func runDirty(c *lib.Ctx, r *lib.Rng, dc DirtyCase) {
+	root := filepath.Join(scratch, "dirty")
+	repo, cdir := filepath.Join(root, "repo"), filepath.Join(root, "cache")
+	defer os.RemoveAll(root)
+	k1, k2 := freshKey(r), freshKey(r)
+	dc.Kind = "dirty"
+	// build v1, store it as K1
+	storeHere(repo, cdir, dc.Compress, k1, append(append([]Node{}, dc.V1...), dc.Extra1...), dc.Outs)
+	st1 := listCache(cdir, k1, dc.Compress)
+	// build v2 over it (a clean rebuild: what is left is v2 only)
+	if dc.StoreK2 {
+		storeHere(repo, cdir, dc.Compress, k2, dc.V2, dc.Outs)
+	} else {
+		buildHere(repo, dc.V2)
+	}
+	check := func(step string, key []byte, st []Ent, version []Node) {
+		hit, before, after := retrieveOver(repo, cdir, dc.Compress, key, dc.Outs)
+		x := dc
+		x.Step, x.Hit, x.Before, x.After = step, hit, before, after
+		// oracle: a hit, and below every output exactly the stored tree of that output
+		c.Oracle()
+		if !hit {
+			c.Fail("dirty-retrieve-miss", "Retrieve of a stored key into an out directory that holds another version of the outputs ("+dc.Label+", "+step+") returned false", x)
+		} else {
+			for _, o := range dc.Outs {
+				n, _ := nodeNamed(version, o)
+				want := expectedTree([]Node{n})
+				got := subtreeOf(after, strings.Split(o, "/"))
+				if !sameTree(got, want) {
+					x.Want, x.BadOut = want, o
+					c.Fail("dirty-retrieve-tree-differs", "Retrieve into an out directory that holds another version of the outputs ("+dc.Label+", "+step+") returned true but output "+o+" is not the stored tree (stale entries or bytes of the old version survive)", x)
+					break
+				}
+			}
+		}
+		key2 := fmt.Sprintf("dirty|%v|%v|%v|%v|%v|%s", dc.Compress, dc.Outs, dc.V1, dc.V2, dc.StoreK2, step)
+		if smallEnough(st) && smallEnough(before) && smallEnough(after) {
+			term := lib.App("CDirty", lib.Bool(dc.Compress), coqFs(st), coqPathList(splitOuts(dc.Outs)), coqTree(before), lib.Bool(hit), coqTree(after))
+			c.Case(term, x, key2, len(before) > 0)
+		} else {
+			c.Eval(x, key2, true)
+		}
+		c.Hist("dirty-outcome", fmt.Sprintf("compress=%v %s hit=%v", dc.Compress, step, hit))
+	}
+	check("K1-over-v2", k1, st1, dc.V1)
+	if dc.StoreK2 {
+		check("K2-over-v1", k2, listCache(cdir, k2, dc.Compress), dc.V2)
+	}
+	c.Hist("dirty-shape", dc.Label)
+}
+
+// dirtyNode builds one version of an output (or of a stale occupant of its path).
+func dirtyNode(name, kind string) (Node, bool) {
+	f := func(n, content string, x bool) Node { return Node{Name: n, Kind: "f", Content: BStr(content), Exec: x} }
+	switch kind {
+	case "absent":
+		return Node{}, false
+	case "file":
+		return f(name, "short v1", false), true
+	case "xfile":
+		return f(name, "#!v1", true), true
+	case "longer-file":
+		return f(name, "a considerably longer second version", true), true
+	case "empty-file":
+		return f(name, "", false), true
+	case "link":
+		return Node{Name: name, Kind: "l", Target: "./nowhere/v1"}, true
+	case "other-link":
+		return Node{Name: name, Kind: "l", Target: "elsewhere"}, true
+	case "emptydir":
+		return Node{Name: name, Kind: "d"}, true
+	case "dir":
+		return Node{Name: name, Kind: "d", Kids: []Node{f("a", "A1", false), {Name: "e", Kind: "d", Kids: []Node{f("c", "C1", true)}}, {Name: "l", Kind: "l", Target: "a"}}}, true
+	case "bigger-dir": // same names with other kinds and longer contents, plus entries v1 does not have
+		return Node{Name: name, Kind: "d", Kids: []Node{f("a", "A2 is longer", true), {Name: "e", Kind: "d", Kids: []Node{f("c", "C2 longer", false), f("stale", "S", false)}},
+			f("l", "was a link", false), {Name: "zdir", Kind: "d", Kids: []Node{f("deep", "D", false)}}}}, true
+	case "smaller-dir":
+		return Node{Name: name, Kind: "d", Kids: []Node{{Name: "e", Kind: "l", Target: "a"}}}, true
+	}
+	panic("dirtyNode: " + kind)
+}
+
+var dirtyV1Kinds = []string{"file", "xfile", "link", "dir", "emptydir"}
+var dirtyV2Kinds = []string{"absent", "same", "longer-file", "empty-file", "other-link", "bigger-dir", "smaller-dir"}
+var dirtyPositions = []string{"t", "sub/n", "a/b/c"}
+
+func dirtyMatrix() []DirtyCase {
+	var out []DirtyCase
+	for _, k1 := range dirtyV1Kinds {
+		for _, k2 := range dirtyV2Kinds {
+			for _, compress := range []bool{false, true} {
+				dc := DirtyCase{Compress: compress, Outs: dirtyPositions, Label: k1 + "<-" + k2}
+				all2 := true
+				for _, pos := range dirtyPositions {
+					n1, _ := dirtyNode(pos, k1)
+					dc.V1 = append(dc.V1, n1)
+					kk := k2
+					if kk == "same" {
+						kk = k1
+					}
+					if n2, ok := dirtyNode(pos, kk); ok {
+						dc.V2 = append(dc.V2, n2)
+					} else {
+						all2 = false
+					}
+				}
+				dc.Extra1 = []Node{{Name: "sub/undeclared", Kind: "f", Content: "not an output"}}
+				dc.V2 = append(dc.V2, Node{Name: "sub/other", Kind: "f", Content: "next to an output"}, Node{Name: "junk.txt", Kind: "f", Content: "junk"})
+				dc.StoreK2 = all2
+				out = append(out, dc)
+			}
+		}
+	}
+	return out
+}
+
+var dirtyOutPool = [][]string{
+	{"m"}, {"bin", "sub/x"}, {"sub/x", "sub/y"}, {"d", "sub/deep/z"}, {"o/p/q/r", "m"}, {"é/a b", "sub/x", "K"}, {"sub/deep/z", "sub/x", "top"}, {"x/y"},
+}
+
+func randDirtyNode(r *lib.Rng, name string) Node {
+	switch k := r.Intn(10); {
+	case k < 4:
+		return Node{Name: name, Kind: "f", Content: randContent(r, false), Exec: r.Chance(1, 3)}
+	case k < 6:
+		return Node{Name: name, Kind: "l", Target: lib.Pick(r, []string{"a", "../b", "./x/y", "nowhere", ".."})}
+	default:
+		b := 1 + r.Intn(5)
+		return Node{Name: name, Kind: "d", Kids: randForest(r, &b, 2, false)}
+	}
+}
+
+func randDirty(r *lib.Rng) DirtyCase {
+	outs := append([]string{}, lib.Pick(r, dirtyOutPool)...)
+	lib.Shuffle(r, outs)
+	dc := DirtyCase{Compress: r.Bool(), Outs: outs, Label: "random", StoreK2: true}
+	for _, o := range outs {
+		n1 := randDirtyNode(r, o)
+		dc.V1 = append(dc.V1, n1)
+		switch r.Intn(5) {
+		case 0:
+			dc.StoreK2 = false // the path is free in the stale directory
+		case 1:
+			dc.V2 = append(dc.V2, n1)
+		default:
+			dc.V2 = append(dc.V2, randDirtyNode(r, o))
+		}
+	}
+	if r.Bool() {
+		dc.V2 = append(dc.V2, Node{Name: "sub/other", Kind: "f", Content: "x"})
+	}
+	if r.Chance(1, 3) {
+		dc.V2 = append(dc.V2, Node{Name: "zz", Kind: "d", Kids: []Node{{Name: "k", Kind: "l", Target: "../m"}}})
+	}
+	if r.Chance(1, 3) {
+		dc.StoreK2 = false
+	}
+	return dc
+}
 
 func must(err error) {
 	if err != nil {
@@ -1300,7 +1544,8 @@ func main() {
 		c.Model("From PlzV Require Import Model.C12.", "C12.case", "C12.check")
 		c.Rule("a case = (compressed?, prior cache state of the key, output forest, crash point); distinct by the whole input; non-trivial when the forest has at least one node. " +
 			"Round trips: every forest shape up to 3 (quick) / 4 (thorough) nodes over {file, executable, symlink, directory}, x compressed/uncompressed, plus random larger forests and overwriting stores; " +
-			"crash points: the store runs in a helper process under strace and is killed on entry to each of its mutating syscalls in turn; races: a helper stores one key repeatedly while this process retrieves it")
+			"crash points: the store runs in a helper process under strace and is killed on entry to each of its mutating syscalls in turn; races: a helper stores one key repeatedly while this process retrieves it; " +
+			"dirty retrieves: outputs declared at the top level and inside sub-directories (t, sub/n, a/b/c), build v1 / store K1 / build v2 / [store K2] / retrieve K1 / [retrieve K2] WITHOUT cleaning the out directory in between, every v1 kind x every stale kind x {plain, compressed} plus random ones; the case carries the cache listing, the out directory before and after")
 		only := os.Getenv("C12_ONLY") // development aid: run one section only
 		if _, err := exec.LookPath("strace"); err != nil {
 			panic("strace is required for the crash-point runs: " + err.Error())
@@ -1471,6 +1716,9 @@ func main() {
 			}
 			add(label, r.Chance(1, 3), old, tmp, tree)
 		}
+		// exactly ONE output, a directory, absent key, uncompressed: the walk of the directory must stay
+		// invisible until the final rename (added after the random jobs so that their PRNG stream is unchanged)
+		add("absent-single-dir", false, nil, nil, treeD)
 		if only != "" && only != "crash" {
 			jobs = nil
 		}
@@ -1527,18 +1775,33 @@ func main() {
 
 		// ---- 3. races -------------------------------------------------------------------------
 		loops, retr := c.Scale(150, 1500), c.Scale(300, 3000)
-		if only != "" && only != "race" {
-			return
+		if only == "" || only == "race" {
+			runRace(c, c.Rng.Fork(), false, treeA, 1, 50) // first store of an absent key
+			runRace(c, c.Rng.Fork(), true, treeA, 1, 50)
+			wide := dir("w")
+			for i := 0; i < 24; i++ {
+				wide.Kids = append(wide.Kids, f(fmt.Sprintf("f%02d", i), strconv.Itoa(i)))
+			}
+			treeW := []Node{wide, f("m", "meta")}
+			runRace(c, c.Rng.Fork(), false, treeW, loops, retr) // repeated (overwriting) stores
+			runRace(c, c.Rng.Fork(), true, treeW, loops, retr)
 		}
-		runRace(c, c.Rng.Fork(), false, treeA, 1, 50) // first store of an absent key
-		runRace(c, c.Rng.Fork(), true, treeA, 1, 50)
-		wide := dir("w")
-		for i := 0; i < 24; i++ {
-			wide.Kids = append(wide.Kids, f(fmt.Sprintf("f%02d", i), strconv.Itoa(i)))
+
+		// ---- 4. nested outputs, retrieve into a directory that holds another version -----------
+		if only == "" || only == "dirty" {
+			nd := 0
+			for _, dc := range dirtyMatrix() {
+				runDirty(c, c.Rng.Fork(), dc)
+				nd++
+			}
+			nrd := c.Scale(40, 500)
+			for i := 0; i < nrd; i++ {
+				r := c.Rng.Fork()
+				runDirty(c, r, randDirty(r))
+				nd++
+			}
+			c.Note("dirty retrieves: %d sequences (build v1, store K1, build v2, [store K2,] retrieve K1 [, retrieve K2]); matrix = every v1 kind %v x stale kind %v x {plain, compressed}, each with the outputs %v at once; %d random ones", nd, dirtyV1Kinds, dirtyV2Kinds, dirtyPositions, nrd)
 		}
-		treeW := []Node{wide, f("m", "meta")}
-		runRace(c, c.Rng.Fork(), false, treeW, loops, retr) // repeated (overwriting) stores
-		runRace(c, c.Rng.Fork(), true, treeW, loops, retr)
 	})
 }
 
@@ -1617,6 +1880,11 @@ func runReplay(c *lib.Ctx, raw json.RawMessage) {
 			defer os.RemoveAll(xr)
 		}
 		runFault(c, c.Rng.Fork(), fc.Compress, xr, fc.Tree, fc.Outs, fc.Old, fc.OldOuts, "replay")
+	case "dirty":
+		var dc DirtyCase
+		must(json.Unmarshal(raw, &dc))
+		dc.Label = "replay " + dc.Label
+		runDirty(c, c.Rng.Fork(), dc)
 	case "race":
 		var rc RaceCase
 		must(json.Unmarshal(raw, &rc))
